@@ -21,13 +21,13 @@ RULE = (
     "(entity kind, old, new, re-arm?) edges observed."
 )
 ASSUMPTIONS = ["SQLite backend", "re-arm exemption is decided from the engine's own processed mark in the same commit group, not from timing"]
-MIN_OBS = {"transitions_checked": {"quick": 30000, "thorough": 500000}}
+MIN_OBS = {"transitions_checked": {"quick": 20000, "thorough": 300000}}
 TIMEOUT = {"quick": 800, "thorough": 3400}
 
 
 def gen_cases(tier: str, seed: int) -> list[dict]:
     n = 60 if tier == "quick" else 500
-    cases = [{"kind": "delivery", "spec_i": i, "seed": seed, "nsched": 10 if tier == "quick" else 30} for i in range(n)]
+    cases = [{"kind": "delivery", "spec_i": i, "seed": seed, "nsched": 16 if tier == "quick" else 30} for i in range(n)]
     cases += [{"kind": "crash", "spec_i": i, "seed": seed} for i in range(12 if tier == "quick" else 60)]
     cases += [{"kind": "race", "i": i, "seed": seed} for i in range(8 if tier == "quick" else 60)]
     return cases
